@@ -33,6 +33,12 @@ package nsqd
 //@ axiom configuredSizesSane: forall n *NSQD :: {curOpts(n)} 0 <= curOpts(n).MaxMsgSize && curOpts(n).MaxMsgSize <= 2147483621 && curOpts(n).MemQueueSize >= 0
 //@ pred ctorOpts(n *NSQD) := n != nil
 
+// Frames shared by everything that may create a topic or a channel (names usable in `modifies`).
+//@ modset newChannelFrame := dqCalls, kNotifies, kInitPQs, mapstore(map[MessageID]*Message), mapstore(map[MessageID]*pqueue.Item), Message.index, elems(*Message), elems(*pqueue.Item)
+//@ modset getChannelFrame := Topic.channelMap, mapstore(map[string]*Channel), newChannelFrame, watchCreated, lGetChanCalls, lGotChan, lGotChanName, lGotChanTopic, lGotChanAuthSeq, lGotChanAuthOK
+//@ modset getTopicFrame := NSQD.topicMap, mapstore(map[string]*Topic), getChannelFrame, luNames, luErr, luTopic, luCount, luAddrs, startCount, startedTopic, startSawWatch,
+//@        getTopicCalls, gotTopic, gotTopicName, gotTopicAuthSeq, gotTopicAuthOK
+
 //@ func NewTopic(topicName string, nsqd *NSQD, deleteCallback func(*Topic)) *Topic
 //@   props C05 C07 C01 C12
 //@   requires ctorOpts(nsqd)
